@@ -59,9 +59,9 @@ pub fn check_index(history: &History, snapshot: &Snapshot<u64>) -> Check {
     for entry in &snapshot.store {
         let problem = match (entry.expire_after, index.get(&entry.id)) {
             (Some(expiry), Some(entries)) if entries.len() == 1 && entries[0].0 == expiry => None,
-            (Some(expiry), Some(entries)) => Some(("stale", format!("key {} (id {}) expires at {:?} but the expiry index holds {:?} for it: it will be swept at the wrong time", entry.key, entry.id, expiry, entries), vec!["C09".to_string()])),
+            (Some(expiry), Some(entries)) => Some(("stale", format!("key {} (id {}) expires at {:?} but the expiry index holds {:?} for it: it will be swept at the wrong time", entry.key, entry.id, expiry, entries), vec!["C09".to_string(), "C03".to_string()])),
             (Some(expiry), None) => Some(("missing", format!("key {} (id {}) expires at {:?} but has no entry in the expiry index: it can never be swept", entry.key, entry.id, expiry), vec![])),
-            (None, Some(entries)) => Some(("leftover", format!("key {} (id {}) has no time-to-live but is in the expiry index ({:?}): a sweep will remove it", entry.key, entry.id, entries), vec!["C09".to_string()])),
+            (None, Some(entries)) => Some(("leftover", format!("key {} (id {}) has no time-to-live but is in the expiry index ({:?}): a sweep will remove it", entry.key, entry.id, entries), vec!["C09".to_string(), "C03".to_string()])),
             (None, None) => None,
         };
         if let Some((kind, message, also)) = problem {
